@@ -25,6 +25,8 @@ DEPTH = {'quick': dict(linkimg=5, info=6, autolink=5, table=5, refdef=5),
 EDIT_TOKENS = ['"', "'", '<', '>', '&', '`']
 ROLE_STRINGS = ['"', "'", '<', '>', '&', 'a"b', "a'b", '<b>', '&amp;', '&quot;', '">', 'x&y', '<!--', '</p>', '\\"',
                 # an absolute URL whose host part is not ASCII, next to the characters that must never reach an attribute raw
+                # percent-encoded markup characters (decoding them after escaping would bring them back raw)
+                '%3Cb%3E%26%22', 'a%3Cscript%3E', '%26lt;%22',
                 'http://b\xfc"c.d/', 'http://\uff02x\uff1c.d/', 'h\xe9"<', 'http://u@\u65e5"/']
 OPTS = [dict(html_escape_double_quotes=a, html_escape_single_quotes=b) for a in (False, True) for b in (False, True)]
 _SetAside = None
